@@ -32,6 +32,7 @@ var c18Alphabet = []string{
 	"create A end+2", "create B end+4", "create C end+4", "create D with a comment larger than the size limit",
 	"edit A comment (in place)", "edit A comment to exceed the size limit", "edit A matchers (replacing edit)", "edit B end=now+4",
 	"expire A", "expire B", "GC", "advance 1", "advance 3 (retention)",
+	"edit A: other matchers AND a comment over the size limit (replacing edit that must be rejected)",
 }
 
 func c18Dump(y *c12Sys) string {
@@ -83,7 +84,7 @@ func c18Run(t *testing.T, h []int) (res seqx.Result) {
 					res.Viol, res.Desc = "oversized-silence-accepted", fmt.Sprintf("step %d: a silence with a 300-byte comment was accepted under a %d-byte limit", step, c18MaxSize)
 					return
 				}
-			case 4, 5, 6, 7:
+			case 4, 5, 6, 7, 13:
 				sl := "A"
 				if x == 7 {
 					sl = "B"
@@ -105,6 +106,8 @@ func c18Run(t *testing.T, h []int) (res seqx.Result) {
 					comment = big
 				case 6:
 					class = "B"
+				case 13:
+					class, comment = "B", big
 				case 7:
 					end = now.Add(4 * c12U)
 				}
@@ -116,7 +119,7 @@ func c18Run(t *testing.T, h []int) (res seqx.Result) {
 				if code == 200 {
 					y.slot[sl] = nid
 				}
-				if x == 5 && code == 200 {
+				if (x == 5 || x == 13) && code == 200 {
 					res.Viol, res.Desc = "oversized-silence-accepted", fmt.Sprintf("step %d: edit to a 300-byte comment accepted under a %d-byte limit", step, c18MaxSize)
 					return
 				}
